@@ -215,16 +215,14 @@ Proof.
 Qed.
 
 (* the scalar a blinder publishes (non-last) or folds into its last value blinder (last) *)
-Lemma output_scalar_spec fixp p inS args last r : wf_pset p ->
-  bl_output_scalar fixp p inS args last = Some r ->
-  eqn (bl_v r) (out_sum (bps_outs p) args - (if negb last && negb fixp then 0 else bl_v inS)).
+Lemma output_scalar_spec p inS args last r : wf_pset p ->
+  bl_output_scalar p inS args last = Some r ->
+  eqn (bl_v r) (out_sum (bps_outs p) args - bl_v inS).
 Proof.
   intros Hw. unfold bl_output_scalar.
   destruct (bl_output_sum p args None) as [s|] eqn:Hs; [|discriminate].
   apply output_sum_spec in Hs; [|exact Hw]. cbn [bl_v] in Hs.
-  destruct (negb last && negb fixp).
-  - intros [= <-]. rewrite Hs. eqn_ring.
-  - intros Hr. apply sub_spec in Hr. rewrite Hr, Hs. eqn_ring.
+  intros Hr. apply sub_spec in Hr. rewrite Hr, Hs. eqn_ring.
 Qed.
 
 Lemma sub_all_spec l : forall s r, bl_sub_all s l = Some r -> eqn (bl_v r) (bl_v s - sumZ (map bl_sc l)).
@@ -363,12 +361,12 @@ Proof.
 Qed.
 
 (* one call of Blinder.blind *)
-Lemma blind_step fixp p owned iss args0 last vok s : wf_pset p -> wf_owned owned ->
-  bl_blind fixp p owned iss args0 last vok = BOk s ->
+Lemma blind_step p owned iss args0 last vok s : wf_pset p -> wf_owned owned ->
+  bl_blind p owned iss args0 last vok = BOk s ->
   fresh_outs (bps_outs p) (bl_sort args0) last (bl_ob (bso_lastvbf s)) ->
   wf_pset (bso_pset s) /\
   (last = true -> bps_scalars (bso_pset s) = []) /\
-  eqn (ledger_D (bso_pset s)) (ledger_D p + (if negb last && negb fixp then 0 else in_sum p iss owned)).
+  eqn (ledger_D (bso_pset s)) (ledger_D p + in_sum p iss owned).
 Proof.
   intros Hwf Hwo. unfold bl_blind. rewrite is_fully_blinded_false.
   destruct (negb (forallb (bl_issarg_ok p) iss)); [discriminate|].
@@ -376,7 +374,7 @@ Proof.
   destruct (negb (forallb (bl_outarg_ok p) args)) eqn:Hok; [discriminate|].
   destruct (negb (bl_validate_args p owned args vok)); [discriminate|].
   destruct (bl_input_scalar p iss owned None) as [inS|] eqn:Hin; [|discriminate].
-  destruct (bl_output_scalar fixp p inS args last) as [outS|] eqn:Hout; [|discriminate].
+  destruct (bl_output_scalar p inS args last) as [outS|] eqn:Hout; [|discriminate].
   destruct (rev args) as [|lastarg rargs] eqn:Hrev; [discriminate|].
   destruct (if last then bl_last_vbf p lastarg outS else Some None) as [lv|] eqn:Hlv; [|discriminate].
   destruct (bl_sanity _); [|discriminate]. intros [= <-]. cbn [bso_pset bso_lastvbf]. intros Hfresh.
@@ -402,53 +400,52 @@ Proof.
     + cbn [negb andb] in *. apply last_vbf_spec in Hlv. cbn [map sumZ]. rewrite Hlv, Hout, Hin.
       unfold scal_sum. eqn_ring.
     + injection Hlv as <-. cbn [bl_v]. rewrite map_app, sumZ_app. cbn [map sumZ]. rewrite bl_sc_ob.
-      rewrite Hout. cbn [negb andb]. destruct fixp; cbn [negb]; [rewrite Hin|]; eqn_ring.
+      rewrite Hout, Hin. eqn_ring.
 Qed.
 
 (* ================= Part 4: any number of parties, any order ================= *)
 
 Definition is_last {A} (rest : list A) : bool := match rest with [] => true | _ => false end.
 
-(* what each party contributes to the ledger: its input scalar when it is accounted for *)
-Fixpoint run_contrib (fixp : bool) (p : bl_pset) (ps : list bl_party) : Z :=
+(* what each party contributes to the ledger: its input scalar *)
+Fixpoint run_contrib (p : bl_pset) (ps : list bl_party) : Z :=
   match ps with
   | [] => 0
   | pa :: rest =>
-      match bl_party_step fixp p pa (is_last rest) with
-      | BOk s => (if negb (is_last rest) && negb fixp then 0 else in_sum p (bpa_iss pa) (bpa_owned pa))
-                 + run_contrib fixp (bso_pset s) rest
+      match bl_party_step p pa (is_last rest) with
+      | BOk s => in_sum p (bpa_iss pa) (bpa_owned pa) + run_contrib (bso_pset s) rest
       | _ => 0
       end
   end.
 (* no output is blinded twice along the run, amounts are non-negative *)
-Fixpoint run_fresh (fixp : bool) (p : bl_pset) (ps : list bl_party) : Prop :=
+Fixpoint run_fresh (p : bl_pset) (ps : list bl_party) : Prop :=
   match ps with
   | [] => True
   | pa :: rest =>
-      match bl_party_step fixp p pa (is_last rest) with
+      match bl_party_step p pa (is_last rest) with
       | BOk s => fresh_outs (bps_outs p) (bl_sort (bpa_outs pa)) (is_last rest) (bl_ob (bso_lastvbf s)) /\
-                 wf_owned (bpa_owned pa) /\ run_fresh fixp (bso_pset s) rest
+                 wf_owned (bpa_owned pa) /\ run_fresh (bso_pset s) rest
       | _ => True
       end
   end.
 
-Lemma bl_run_unfold fixp p pa rest :
-  bl_run fixp p (pa :: rest) =
-  match bl_party_step fixp p pa (is_last rest) with
-  | BOk s => bl_run fixp (bso_pset s) rest | BErr => BErr | BPanic => BPanic end.
+Lemma bl_run_unfold p pa rest :
+  bl_run p (pa :: rest) =
+  match bl_party_step p pa (is_last rest) with
+  | BOk s => bl_run (bso_pset s) rest | BErr => BErr | BPanic => BPanic end.
 Proof. reflexivity. Qed.
 
-Theorem run_ledger fixp : forall ps p pf, wf_pset p ->
-  bl_run fixp p ps = BOk pf -> run_fresh fixp p ps ->
-  eqn (ledger_D pf) (ledger_D p + run_contrib fixp p ps) /\ (ps <> [] -> bps_scalars pf = []).
+Theorem run_ledger : forall ps p pf, wf_pset p ->
+  bl_run p ps = BOk pf -> run_fresh p ps ->
+  eqn (ledger_D pf) (ledger_D p + run_contrib p ps) /\ (ps <> [] -> bps_scalars pf = []).
 Proof.
   induction ps as [|pa rest IH]; intros p pf Hwf Hrun Hfr.
   - cbn in Hrun. injection Hrun as <-. split; [cbn [run_contrib]; eqn_ring | congruence].
   - rewrite bl_run_unfold in Hrun. cbn [run_contrib run_fresh] in *.
-    destruct (bl_party_step fixp p pa (is_last rest)) as [s| |] eqn:Hstep; try discriminate.
+    destruct (bl_party_step p pa (is_last rest)) as [s| |] eqn:Hstep; try discriminate.
     destruct Hfr as (Hfresh & Hwo & Hfr).
     unfold bl_party_step in Hstep. destruct (negb (bl_new_blinder p (bpa_owned pa))); [discriminate|].
-    destruct (blind_step _ _ _ _ _ _ _ _ Hwf Hwo Hstep Hfresh) as (Hwf' & Hnil & HD).
+    destruct (blind_step _ _ _ _ _ _ _ Hwf Hwo Hstep Hfresh) as (Hwf' & Hnil & HD).
     destruct (IH _ _ Hwf' Hrun Hfr) as [HD' Hnil'].
     split.
     + rewrite HD', HD. eqn_ring.
@@ -507,33 +504,21 @@ Qed.
    blinded twice; the amounts are conserved per asset (as Elements requires of the unblinded
    amounts); and the parties' input scalars account for the blinders of what is spent and issued
    (ownership is a partition of the confidential inputs, with their true openings). *)
-Theorem v2_balance_gen fixp ps p0 pf ws wos :
+Theorem v2_balance ps p0 pf ws wos :
   wf_pset p0 -> ps <> [] ->
-  bl_run fixp p0 ps = BOk pf -> run_fresh fixp p0 ps ->
+  bl_run p0 ps = BOk pf -> run_fresh p0 ps ->
   map bwo_value wos = map bpo_value (bps_outs pf) ->
   (forall a, bl_coef (fst (bl_lin_sum (bl_tx_in 0%N ws (bps_ins pf)))) a =
              bl_coef (fst (bl_lin_sum (bl_tx_out wos (bps_outs pf)))) a) ->
-  eqn (ledger_D p0 + run_contrib fixp p0 ps) (in_g 0%N ws (bps_ins pf)) ->
+  eqn (ledger_D p0 + run_contrib p0 ps) (in_g 0%N ws (bps_ins pf)) ->
   bl_balanced ws wos pf = true.
 Proof.
   intros Hwf Hne Hrun Hfr Hvals Hcons Hown.
-  destruct (run_ledger fixp ps p0 pf Hwf Hrun Hfr) as [HD Hnil]. specialize (Hnil Hne).
+  destruct (run_ledger ps p0 pf Hwf Hrun Hfr) as [HD Hnil]. specialize (Hnil Hne).
   unfold bl_balanced. apply lin_eqb_intro; [|exact Hcons].
   rewrite !lin_sum_snd, tx_in_g, (tx_out_g _ _ Hvals). rewrite <- Hown, <- HD.
   unfold ledger_D, scal_sum. rewrite Hnil. cbn [map sumZ]. eqn_ring.
 Qed.
-
-(* the code as it is: only the LAST party's input scalar is ever accounted for *)
-Lemma run_contrib_asis : forall ps p, run_contrib false p ps =
-  match ps with
-  | [] => 0
-  | pa :: rest =>
-      match bl_party_step false p pa (is_last rest) with
-      | BOk s => (if is_last rest then in_sum p (bpa_iss pa) (bpa_owned pa) else 0) + run_contrib false (bso_pset s) rest
-      | _ => 0
-      end
-  end.
-Proof. intros [|pa rest] p; cbn [run_contrib]; [reflexivity|]. destruct (bl_party_step false p pa (is_last rest)); try reflexivity. destruct (is_last rest); reflexivity. Qed.
 
 (* ---- a concrete two-party exchange: party A (non-last) owns a confidential input ---- *)
 Definition ex_b (z : Z) : bytes := bl_enc z.
@@ -547,17 +532,15 @@ Definition ex_B : bl_party :=
 Definition ex_ws : list bl_win := [bmk_win 0%N 100 (ex_b 5) (ex_b 7) 0%N 0 0; bmk_win 0%N 10 bl_zero32 bl_zero32 0%N 0 0].
 Definition ex_wos : list bl_wout := [bmk_wout 0%N 60; bmk_wout 0%N 40; bmk_wout 0%N 10].
 
-Definition run_balanced (fixp : bool) (p : bl_pset) (ps : list bl_party) (ws : list bl_win) (wos : list bl_wout) : option bool :=
-  match bl_run fixp p ps with BOk pf => Some (bl_balanced ws wos pf) | _ => None end.
+Definition run_balanced (p : bl_pset) (ps : list bl_party) (ws : list bl_win) (wos : list bl_wout) : option bool :=
+  match bl_run p ps with BOk pf => Some (bl_balanced ws wos pf) | _ => None end.
 
-(* the statement one wants — every successful exchange of a value-conserving transaction whose
-   confidential inputs are each owned by exactly one party balances — is FALSE of the code as it is:
-   A blinds first (BlindNonLast), B last (BlindLast); both succeed; 100 + 10 = 60 + 40 + 10; the
-   commitments do not balance.  With A last instead, or with the repaired calculateOutputScalar, they do. *)
-Theorem v2_balance_refuted :
-  exists p ps ws wos, run_balanced false p ps ws wos = Some false /\ run_balanced true p ps ws wos = Some true.
-Proof. exists ex_p0, [ex_A; ex_B], ex_ws, ex_wos. split; vm_compute; reflexivity. Qed.
-Example v2_order_matters_asis : run_balanced false ex_p0 [ex_B; ex_A] ex_ws ex_wos = Some true.
+(* A blinds first (BlindNonLast) and owns the confidential input, B blinds last; 100 + 10 = 60 + 40 + 10.
+   Before /repo db58bba the non-last party published its output sum without subtracting its input scalar
+   and this exchange did not balance; it does now, in either order. *)
+Example v2_two_parties_balance : run_balanced ex_p0 [ex_A; ex_B] ex_ws ex_wos = Some true.
+Proof. vm_compute. reflexivity. Qed.
+Example v2_two_parties_balance_swapped : run_balanced ex_p0 [ex_B; ex_A] ex_ws ex_wos = Some true.
 Proof. vm_compute. reflexivity. Qed.
 
 (* ================= Part 5: pset v0 — the final value blinding factor ================= *)
@@ -627,20 +610,17 @@ Qed.
 Definition ex0_ins : list b0_in := [bmk_b0in 0%N 100 (ex_b 5) (ex_b 7) 0%N 0 0].
 Definition ex0_outs : list b0_out := [bmk_b0out 0%N 30 false; bmk_b0out 0%N 60 false; bmk_b0out 0%N 10 true].
 Definition ex0_rng : list bytes := map ex_b [21; 22; 23; 24; 25; 26; 27; 28].
-Definition b0_run_balanced fixq ins outs sel :=
-  match b0_blind fixq ins outs sel false true ex0_rng with
+Definition b0_run_balanced ins outs sel :=
+  match b0_blind ins outs sel false true ex0_rng with
   | BOk r => Some (b0_balanced ins outs r) | BErr => None | BPanic => Some false end.
 
-(* both spendable outputs blinded (indexes 0,1): the code as it is succeeds and balances *)
-Example v0_contiguous_balances : b0_run_balanced false ex0_ins ex0_outs [0%N; 1%N] = Some true.
+(* both spendable outputs blinded (indexes 0,1) *)
+Example v0_contiguous_balances : b0_run_balanced ex0_ins ex0_outs [0%N; 1%N] = Some true.
 Proof. vm_compute. reflexivity. Qed.
-(* only output 1 blinded (the other stays explicit): the arrays have one entry, the write-back reads
-   entry 1: index out of range.  Blinding exactly the requested outputs when they are not 0..k-1 is
-   impossible with the code as it is; with the arrays indexed by position it succeeds and balances. *)
-Theorem v0_blinded_set_refuted :
-  exists ins outs sel, b0_blind false ins outs sel false true ex0_rng = BPanic /\
-                       b0_run_balanced true ins outs sel = Some true.
-Proof. exists ex0_ins, ex0_outs, [1%N]. split; vm_compute; reflexivity. Qed.
+(* only output 1 blinded, output 0 stays explicit: before /repo 65fe84b the write-back read the arrays
+   with the output index and this request panicked; the positional write-back succeeds and balances *)
+Example v0_noncontiguous_balances : b0_run_balanced ex0_ins ex0_outs [1%N] = Some true.
+Proof. vm_compute. reflexivity. Qed.
 
 (* ================= Part 6: which arguments the proofs are made with ================= *)
 
@@ -784,8 +764,8 @@ Lemma write_outs_length last lv : forall args outs, length (bl_write_outs outs a
 Proof. induction args as [|a rest IH]; intros outs; cbn [bl_write_outs]; [reflexivity|]. now rewrite IH, write_out_length. Qed.
 
 (* one blinder: afterwards an output is blinded iff it was before or it was among the (sorted) arguments *)
-Lemma blind_blinded fixp p owned iss args0 last vok s j :
-  bl_blind fixp p owned iss args0 last vok = BOk s -> (j < length (bps_outs p))%nat ->
+Lemma blind_blinded p owned iss args0 last vok s j :
+  bl_blind p owned iss args0 last vok = BOk s -> (j < length (bps_outs p))%nat ->
   length (bps_outs (bso_pset s)) = length (bps_outs p) /\
   blinded_at (bps_outs (bso_pset s)) j = blinded_at (bps_outs p) j || asked_at (bl_sort args0) j.
 Proof.
@@ -794,7 +774,7 @@ Proof.
   destruct (negb (forallb (bl_outarg_ok p) (bl_sort args0))); [discriminate|].
   destruct (negb (bl_validate_args p owned (bl_sort args0) vok)); [discriminate|].
   destruct (bl_input_scalar p iss owned None); [|discriminate].
-  destruct (bl_output_scalar fixp p o (bl_sort args0) last); [|discriminate].
+  destruct (bl_output_scalar p o (bl_sort args0) last); [|discriminate].
   destruct (rev (bl_sort args0)); [discriminate|].
   destruct (if last then bl_last_vbf p b o0 else Some None); [|discriminate].
   destruct (bl_sanity _); [|discriminate]. intros [= <-] Hj. cbn [bso_pset bps_outs].
@@ -802,30 +782,79 @@ Proof.
 Qed.
 
 (* the whole exchange: the outputs blinded at the end are exactly those some party asked for *)
-Theorem v2_blinded_exactly_requested fixp : forall ps p pf j,
-  bl_run fixp p ps = BOk pf -> (j < length (bps_outs p))%nat ->
+Theorem v2_blinded_exactly_requested : forall ps p pf j,
+  bl_run p ps = BOk pf -> (j < length (bps_outs p))%nat ->
   blinded_at (bps_outs pf) j = blinded_at (bps_outs p) j || existsb (fun pa => asked_at (bl_sort (bpa_outs pa)) j) ps.
 Proof.
   induction ps as [|pa rest IH]; intros p pf j Hrun Hj.
   - cbn in Hrun. injection Hrun as <-. cbn [existsb]. now rewrite Bool.orb_false_r.
-  - rewrite bl_run_unfold in Hrun. destruct (bl_party_step fixp p pa (is_last rest)) as [s| |] eqn:Hs; try discriminate.
+  - rewrite bl_run_unfold in Hrun. destruct (bl_party_step p pa (is_last rest)) as [s| |] eqn:Hs; try discriminate.
     unfold bl_party_step in Hs. destruct (negb (bl_new_blinder p (bpa_owned pa))); [discriminate|].
-    destruct (blind_blinded _ _ _ _ _ _ _ _ j Hs Hj) as [Hlen Hb].
+    destruct (blind_blinded _ _ _ _ _ _ _ j Hs Hj) as [Hlen Hb].
     rewrite (IH _ _ j Hrun) by (rewrite Hlen; exact Hj). rewrite Hb. cbn [existsb]. now rewrite Bool.orb_assoc.
 Qed.
 
-(* pset v0: the write-back (as coded, when it does not run out of range) marks exactly the selection *)
+(* pset v0: a successful write-back marks exactly the outputs it was given, whatever their indexes *)
 Definition marked_at {A} (w : list (option A)) (j : nat) : bool :=
   match nth_error w j with Some (Some _) => true | _ => false end.
-Lemma v0_writeback_marks arr : forall sel outs w j, b0_writeback sel arr outs = BOk w -> (j < length outs)%nat ->
-  length w = length outs /\ marked_at w j = marked_at outs j || existsb (fun i => (N.to_nat i =? j)%nat) sel.
+Definition sel_at (sel : list N) (j : nat) : bool := existsb (fun i => (N.to_nat i =? j)%nat) sel.
+Lemma v0_writeback_marks : forall sel arr outs w j, b0_writeback sel arr outs = BOk w -> (j < length outs)%nat ->
+  length w = length outs /\ marked_at w j = marked_at outs j || sel_at sel j.
 Proof.
-  induction sel as [|idx rest IH]; intros outs w j; cbn [b0_writeback existsb].
+  induction sel as [|idx rest IH]; intros arr outs w j; cbn [b0_writeback sel_at existsb].
   - intros [= <-] _. now rewrite Bool.orb_false_r.
-  - destruct (bl_nth outs idx) as [y|] eqn:Ho; [|discriminate].
-    destruct (bl_nth arr idx) as [x|]; [|discriminate]. intros Hw Hj.
-    destruct (IH _ _ j Hw) as [Hlen Hm]; [rewrite upd_length; exact Hj|].
+  - destruct arr as [|x arr']; [discriminate|].
+    destruct (bl_nth outs idx) as [y|] eqn:Ho; [|discriminate]. intros Hw Hj.
+    destruct (IH _ _ _ j Hw) as [Hlen Hm]; [rewrite upd_length; exact Hj|].
     rewrite upd_length in Hlen. split; [exact Hlen|]. rewrite Hm. unfold marked_at at 1. rewrite nth_error_upd.
     pose proof (bl_nth_some_lt _ _ _ Ho) as Hlt. apply Nat.ltb_lt in Hlt. rewrite Hlt, Bool.andb_true_r.
-    destruct (N.to_nat idx =? j)%nat; cbn [orb]; [now rewrite Bool.orb_true_r | reflexivity].
+    fold (sel_at rest j). destruct (N.to_nat idx =? j)%nat; cbn [orb]; [now rewrite Bool.orb_true_r | reflexivity].
+Qed.
+
+Lemma existsb_ins f a : forall l, existsb f (b0_ins a l) = f a || existsb f l.
+Proof.
+  induction l as [|h t IH]; cbn [b0_ins existsb]; [reflexivity|].
+  destruct (a <? h)%N; cbn [existsb]; [reflexivity|]. rewrite IH. now rewrite !Bool.orb_assoc, (Bool.orb_comm (f h)).
+Qed.
+Lemma existsb_sort f l : existsb f (b0_sort l) = existsb f l.
+Proof. induction l as [|a t IH]; cbn [b0_sort fold_right existsb]; [reflexivity|]. fold (b0_sort t). now rewrite existsb_ins, IH. Qed.
+Lemma existsb_filter {A} (f g : A -> bool) : forall l, existsb f (filter g l) = existsb (fun x => g x && f x) l.
+Proof. induction l as [|a t IH]; cbn [filter existsb]; [reflexivity|]. destruct (g a); cbn [existsb andb]; now rewrite IH. Qed.
+Lemma marked_start {A B} (outs : list B) j : marked_at (map (fun _ => @None A) outs) j = false.
+Proof. unfold marked_at. rewrite nth_error_map. destruct (nth_error outs j); reflexivity. Qed.
+
+Definition has_script (outs : list b0_out) (i : N) : bool :=
+  match bl_nth outs i with Some o => negb (bo0_noscript o) | None => false end.
+
+(* Blinder.Blind, any selection (contiguous or not, in any order): when it succeeds, output j carries
+   commitments and proofs iff j was selected (and has a script: an empty-script output is never blinded) *)
+Theorem v0_blinded_exactly_requested ins outs sel keys sok rng r j :
+  b0_blind ins outs sel keys sok rng = BOk r -> (j < length outs)%nat ->
+  marked_at (br0_outs r) j = existsb (fun i => has_script outs i && (N.to_nat i =? j)%nat) sel.
+Proof.
+  unfold b0_blind. destruct (b0_pseudo keys 0%N ins rng) as [[pseudo r1]|]; [|discriminate].
+  destruct (negb (forallb _ (b0_sort sel))); [discriminate|].
+  destruct (b0_draws (length sel) r1) as [[abfs r2]|]; [|discriminate].
+  destruct (b0_draws (pred (length sel)) r2) as [[vbfs r3]|]; [|discriminate].
+  destruct (b0_final_vbf _ _ _ _ _ _) as [fv|]; [|discriminate].
+  destruct (b0_draws _ r3) as [[seeds r4]|]; [|discriminate].
+  destruct (negb sok); [discriminate|].
+  destruct (b0_writeback _ _ _) as [w| |] eqn:Hw; try discriminate.
+  intros [= <-] Hj. cbn [br0_outs].
+  destruct (v0_writeback_marks _ _ _ _ j Hw) as [_ Hm]; [rewrite map_length; exact Hj|].
+  rewrite Hm, marked_start. cbn [orb]. unfold sel_at. rewrite existsb_filter, existsb_sort. reflexivity.
+Qed.
+
+(* the hypotheses of v2_balance are satisfiable (two parties, the non-last one owns a confidential input) *)
+Example v2_balance_hyps_sat : exists pf,
+  bl_run ex_p0 [ex_A; ex_B] = BOk pf /\ wf_pset ex_p0 /\ run_fresh ex_p0 [ex_A; ex_B] /\
+  map bwo_value ex_wos = map bpo_value (bps_outs pf) /\
+  eqn (ledger_D ex_p0 + run_contrib ex_p0 [ex_A; ex_B]) (in_g 0%N ex_ws (bps_ins pf)).
+Proof.
+  Local Transparent eqn.
+  eexists. split; [vm_compute; reflexivity|].
+  split; [split; repeat constructor; cbn; lia|].
+  split; [vm_compute; repeat split; repeat constructor; intro H; discriminate H|].
+  split; [vm_compute; reflexivity|].
+  unfold eqn. vm_compute. reflexivity.
 Qed.
